@@ -72,8 +72,8 @@ def run_grammar(ctx, G, family, inputs, optsets, engines=ENGINES):
             st, l = build(ctx, text, parser=parser, lexer=lexer, **kw)
             if st != 'ok':
                 ctx.count('construction-%s:%s' % (st, parser))
-                if st == 'budget' and parser != 'cyk':
-                    ctx.violation('construction-no-termination:' + parser, {'grammar': G, 'engine': [parser, lexer], 'opts': opts, 'input': None, 'family': family}, {})
+                # a construction that exceeds the step budget is counted, not judged: the statement is about trees (the LALR
+                # automaton of a few hundred compiled alternatives takes seconds; termination of Earley construction is C01's)
                 continue
             mode = lexer if parser == 'earley' else 'basic'
             for w in inputs:
@@ -150,6 +150,10 @@ CORPUS = [
                               ru('inner', [al([['p', 'x'], L('z')])], mods='!', params=['x'])], ['aza']),
     ('template-bang-sibling', [ru('start', [al([['c', 'inner', [L('a')]], ['c', 'plain', [L('a')]]])]), ru('plain', [al([['p', 'x'], tB])], params=['x']),
                                ru('inner', [al([['p', 'x'], L('z')])], mods='!', params=['x'])], ['azab']),
+    # the same template instantiated with a literal and with the named terminal it coincides with (and from a !-rule): one
+    # instance per kind of argument, whatever comes first
+    ('template-literal-then-named-arg', [ru('start', [al([['c', 'outer', [L('a')]], L(','), ['c', 'outer', [tA]]])]), ru('outer', [al([['p', 'x'], tB])], params=['x'])], ['ab,ab']),
+    ('template-named-then-literal-arg', [ru('start', [al([['c', 'outer', [tA]], L(','), ['c', 'outer', [L('a')]]])]), ru('outer', [al([['p', 'x'], tB])], params=['x'])], ['ab,ab']),
     ('template-inline', [ru('start', [al([['c', '_par', [tA]], ['c', '_par', [['r', 'w']]]])]), ru('w', [al([tB])]),
                          ru('_par', [al([L('('), ['p', 'x'], L(')')])], params=['x'])], ['(a)(b)']),
     # a repeated literal and the repeated named terminal it coincides with must not share a helper rule
